@@ -10,6 +10,9 @@ from harness.result import CheckResult, attach
 from harness.world import World, candidate_imports, random_world
 
 ASSUMPTIONS = [
+    "LayerLaws.tla: same-layer imports never count, unmentioned layers are like no layer, should-only decomposition and "
+    "monotonicity are proved with TLAPS for arbitrary layer denotations (97 obligations); TLC checks on the bounded "
+    "model that the copied operators agree with LayerSem (MC_LayerSem!LayerLawsCopyAgrees)",
     "domain: layers list existing modules (at any depth below the root) that are pairwise unrelated across layers; "
     "within one layer a listed module may be repeated by one of its own descendants (redundant); regex layers are built so "
     "that they match exactly the intended modules; their match set (re.match) is an input to the specification",
@@ -196,6 +199,9 @@ def run_and_validate(specs, procs=16):
 
 def run(ctx):
     mc = model_check(small=ctx.quick)
+    # the structural laws of C05 for arbitrary layer denotations, imports and rules (TLAPS); bound to LayerSem by
+    # MC_LayerSem!LayerLawsCopyAgrees, which the model check above includes
+    proofs = tlc.tlaps_prove("LayerLaws.tla")
     specs, meta = specs_for(ctx)
     tr, episodes, fails = run_and_validate(specs)
     evals = [e for ep in episodes for e in ep if e["k"] == "leval"]
@@ -210,7 +216,8 @@ def run(ctx):
     import json
     distinct = len({json.dumps([ep[0]["imports"], e["layers"], e["rule"]], sort_keys=True)
                     for ep in episodes for e in ep if e["k"] == "leval" and ep[0]["imports"]})
-    cov = {"states": mc.distinct + tr.states, "transitions": mc.generated + tr.transitions,
+    cov = {"tlaps_obligations_proved": proofs["obligations"], "tlaps_wall_s": proofs["wall"],
+           "states": mc.distinct + tr.states, "transitions": mc.generated + tr.transitions,
            "model_states": mc.distinct, "model_transitions": mc.generated,
            "traces_validated_against_impl": len(episodes), "trace_events": tr.events,
            "evaluations": len(evals), "outcomes": outs, "law_instances": laws, "distinct_nontrivial": distinct,
